@@ -1,48 +1,48 @@
 /-
-Finite directed graphs over string node ids, reachability by bounded frontier expansion with an
-explicit closure check (certificate style), cycles.
+Finite directed graphs over an arbitrary node type, reachability by bounded frontier expansion
+with an explicit closure check (certificate style), cycles.
 -/
 namespace GM.Graph
 
-abbrev Node := String
+structure G (α : Type) where
+  edges : List (α × α)
+deriving Repr, Inhabited
 
-structure G where
-  edges : List (Node × Node)
-deriving Repr, DecidableEq, Inhabited
+variable {α : Type} [DecidableEq α]
 
-def G.nodes (g : G) : List Node := (g.edges.flatMap fun (a, b) => [a, b]).eraseDups
+def G.nodes (g : G α) : List α := (g.edges.flatMap fun (a, b) => [a, b]).eraseDups
 
-def succs (g : G) (a : Node) : List Node :=
+def succs (g : G α) (a : α) : List α :=
   g.edges.filterMap fun (x, y) => if x = a then some y else none
 
 /-- one round: add all successors -/
-def expand (g : G) (r : List Node) : List Node := (r ++ r.flatMap (succs g)).eraseDups
+def expand (g : G α) (r : List α) : List α := (r ++ r.flatMap (succs g)).eraseDups
 
-def iter (g : G) : Nat → List Node → List Node
+def iter (g : G α) : Nat → List α → List α
   | 0, r => r
   | n+1, r => iter g n (expand g r)
 
-def closed (g : G) (r : List Node) : Bool := r.all fun x => (succs g x).all fun y => r.contains y
+def closed (g : G α) (r : List α) : Bool := r.all fun x => (succs g x).all fun y => r.contains y
 
 /-- nodes reachable from `a` by a path of length ≥ 1; `none` if the bounded iteration did not
-close (never happens: |V| rounds suffice — see `Lemmas/Graph.lean`) -/
-def reach (g : G) (a : Node) : Option (List Node) :=
+close (|V| rounds always suffice; the driver reports any `none`) -/
+def reach (g : G α) (a : α) : Option (List α) :=
   let r := iter g g.nodes.length (succs g a)
   if closed g r then some r else none
 
-def reachD (g : G) (a : Node) : List Node := (reach g a).getD []
+def reachD (g : G α) (a : α) : List α := (reach g a).getD []
 
 /-- `a` lies on a cycle -/
-def onCycle (g : G) (a : Node) : Bool := (reachD g a).contains a
+def onCycle (g : G α) (a : α) : Bool := (reachD g a).contains a
 
-def cyclic (g : G) : Bool := g.nodes.any (onCycle g)
+def cyclic (g : G α) : Bool := g.nodes.any (onCycle g)
 
 /-- `c = [v0, v1, …, vk]` with `v0 = vk`, k ≥ 1, and every consecutive pair an edge -/
-def isCycle (g : G) (c : List Node) : Bool :=
+def isCycle (g : G α) (c : List α) : Bool :=
   c.length ≥ 2 && c.head? == c.getLast? &&
   (c.zip (c.drop 1)).all fun e => g.edges.contains e
 
-inductive Path (g : G) : Node → Node → Prop
+inductive Path (g : G α) : α → α → Prop
   | edge {a b} : (a, b) ∈ g.edges → Path g a b
   | cons {a b c} : (a, b) ∈ g.edges → Path g b c → Path g a c
 
